@@ -228,8 +228,6 @@ def _twin_sig(m):
             sig[j] = (ent, e['t'], e['kind'])
         else:
             sig[j] = (ent, None, None)
-        if exe.verdict == ('return', True) and not n.get('forever'):
-            sig[j] += (e is not None,)
     v = exe.verdict
     sig['<run()>'] = (v[0], v[1] if v[0] == 'return' else type(v[1]).__name__, tend)
     return sig
@@ -256,6 +254,22 @@ def run_twin(prop, spec, loop_seed):
         out.violation('twin-termination', "nested run: %r, flattened run: %r" % (ea.verdict, eb.verdict))
     else:
         sa, sb = _twin_sig(ma), _twin_sig(mb)
+        va, vb = sa.pop('<run()>'), sb.pop('<run()>')
+        ra, rb = ma.run(ma.top), mb.run(mb.top)
+        if va != vb:
+            # tie policy: when, in one of the two runs, several causes fall in
+            # the final instant (e.g. a critical forever job raising in the very
+            # instant the last regular job ends) the nested run may see them in
+            # another order than the flat one: accepted iff both end at the same
+            # instant and such a tie was observed
+            ok_run = ra if va[:2] == ('return', True) else rb if vb[:2] == ('return', True) else None
+            ko_run = rb if ok_run is ra else ra
+            tie = (va[2] == vb[2] and ok_run is not None and ko_run is not None and
+                   ok_run.t_all == va[2] and ko_run.tc == va[2])
+            if tie:
+                out.count('twins whose verdicts differ by a tie in the final instant (accepted)')
+            else:
+                out.violation('twin-verdict', "run(): nested tree %r, flattened graph %r" % (va, vb))
         for x in sa:
             out.count('job timings compared between twins')
             if sa[x] != sb.get(x):
